@@ -197,6 +197,48 @@ theorem applyBinaryOp_exact (op : Nat → Nat → Nat) (f : Bool → Bool → Bo
           · have p : ¬ (dofs ≤ i ∧ i < dofs + len) := by omega
             simp [c1, c2, p]
 
+/-- **In-place unary operation** (`bit_util::apply_bitwise_unary_op`): exactly the bits
+`[dofs, dofs+len)` become `g old`; every other bit is unchanged. -/
+theorem applyUnaryOp_exact (opu : Nat → Nat) (g : Bool → Bool)
+    (hop : ∀ a j, j < 64 → (opu a).testBit j = g (a.testBit j))
+    (d dofs len i : Nat) :
+    (applyUnaryOp opu d dofs len).testBit i =
+      if dofs ≤ i ∧ i < dofs + len then g (d.testBit i) else d.testBit i := by
+  unfold applyUnaryOp
+  by_cases h0 : len = 0
+  · subst h0
+    have : ¬ (dofs ≤ i ∧ i < dofs + 0) := by omega
+    simp only [if_true, this, if_false]
+  · simp only [h0, if_false]
+    by_cases ha : dofs % 8 = 0
+    · simp only [ha, if_true]
+      exact testBit_alignedUnOp opu g hop d dofs len i ha
+    · simp only [ha, if_false]
+      have hb8 : dofs % 8 < 8 := Nat.mod_lt _ (by decide)
+      have h1 : ∀ t, (alignToByte opu d dofs len).testBit t =
+          if dofs ≤ t ∧ t < dofs + min (8 - dofs % 8) len then g (d.testBit t) else d.testBit t := by
+        intro t
+        rw [testBit_alignToByte opu (fun _ b => g b) (fun x j hj => hop x j (by omega)) d dofs len t ha]
+      by_cases hl : len - (8 - dofs % 8) = 0
+      · simp only [hl, if_true]
+        rw [h1]
+        have : min (8 - dofs % 8) len = len := by omega
+        rw [this]
+      · simp only [hl, if_false]
+        have hnn : min (8 - dofs % 8) len = 8 - dofs % 8 := by omega
+        have hal : (dofs + (8 - dofs % 8)) % 8 = 0 := by omega
+        rw [testBit_alignedUnOp opu g hop _ _ _ i hal, h1, hnn]
+        by_cases c1 : dofs ≤ i ∧ i < dofs + (8 - dofs % 8)
+        · have n2 : ¬ (dofs + (8 - dofs % 8) ≤ i ∧ i < dofs + (8 - dofs % 8) + (len - (8 - dofs % 8))) := by omega
+          have p : dofs ≤ i ∧ i < dofs + len := by omega
+          simp [c1, n2, p]
+        · by_cases c2 : dofs + (8 - dofs % 8) ≤ i ∧ i < dofs + (8 - dofs % 8) + (len - (8 - dofs % 8))
+          · have p : dofs ≤ i ∧ i < dofs + len := by omega
+            have n3 : ¬ (i < dofs + (8 - dofs % 8)) := by omega
+            simp [c2, p, n3]
+          · have p : ¬ (dofs ≤ i ∧ i < dofs + len) := by omega
+            simp [c1, c2, p]
+
 /-- non-vacuity: `&&&` is a bitwise word operation in the sense required above -/
 example : ∀ a b j : Nat, j < 64 → (a &&& b).testBit j = (a.testBit j && b.testBit j) :=
   fun a b j _ => Nat.testBit_and a b j
